@@ -88,6 +88,22 @@ Section Scope.
       rewrite forallb_forall in HV. specialize (HV ev Hin). rewrite Hgd in HV. simpl in HV.
       now apply inb_In.
   Qed.
+  Definition event_eq_dec : forall a b : event, {a = b} + {a <> b}.
+  Proof. repeat decide equality. Defined.
+  Fixpoint guards_b (c : cfg) (h : list event) : bool :=
+    match h with
+    | [] => true
+    | ev :: r => existsb (fun x => if event_eq_dec ev x then true else false) alphabet &&
+                 guard c ev && guards_b (cstep c ev) r
+    end.
+  Lemma guards_b_sound : forall h c, guards_b c h = true -> guards_along c h.
+  Proof.
+    induction h as [|ev r IH]; intros c H; simpl in *; [exact I|].
+    apply andb_true_iff in H. destruct H as [H H3]. apply andb_true_iff in H. destruct H as [H1 H2].
+    split; [|split; auto].
+    apply existsb_exists in H1. destruct H1 as [x [Hin Hx]].
+    destruct (event_eq_dec ev x); [now subst|discriminate].
+  Qed.
 End Scope.
 
 (* ---------- the universe ---------- *)
@@ -107,8 +123,27 @@ Definition u_init : cfg := mkCfg [] init_st.
 Definition u_reach : list cfg :=
   match explore u_env u_alphabet 4000 [u_init] [u_init] with Some v => v | None => [] end.
 
-Definition u_check : bool := let V := u_reach in closed u_env u_alphabet V && inb u_init V.
-Lemma u_reach_closed : u_check = true.
+Lemma good_elim e c : good e c = true ->
+  view_matches_spec e (c_objs c) (c_st c) = true /\
+  s_ready (c_st c) = true /\ s_fuel (c_st c) = false /\
+  views_agree (c_objs c) (c_st c) (scratch e (c_objs c)) = true.
+Proof.
+  unfold good. intros G.
+  apply andb_true_iff in G. destruct G as [G G4].
+  apply andb_true_iff in G. destruct G as [G G3].
+  apply andb_true_iff in G. destruct G as [G1 G2].
+  apply negb_true_iff in G3. auto.
+Qed.
+
+Lemma small_scope_generic e alphabet init V :
+  closed e alphabet V && inb init V = true ->
+  forall h, guards_along e alphabet init h -> good e (fold_left (cstep e) h init) = true.
+Proof.
+  intros HC h Hg. apply andb_true_iff in HC. destruct HC as [HC Hi].
+  exact (closed_sound e alphabet V HC h init (inb_In _ _ Hi) Hg).
+Qed.
+
+Lemma u_reach_closed : closed u_env u_alphabet u_reach && inb u_init u_reach = true.
 Proof. vm_compute. reflexivity. Qed.
 
 (* every history over the universe (any length) whose intermediate object sets
@@ -122,12 +157,8 @@ Theorem incremental_equals_scratch_small_scope : forall h,
   s_ready (c_st c) = true /\ s_fuel (c_st c) = false /\
   views_agree (c_objs c) (c_st c) (scratch u_env (c_objs c)) = true.
 Proof.
-  intros h Hg c.
-  pose proof u_reach_closed as HC. unfold u_check in HC. cbv zeta in HC. apply andb_true_iff in HC. destruct HC as [HC Hi].
-  pose proof (closed_sound u_env u_alphabet u_reach HC h u_init (inb_In _ _ Hi) Hg) as G.
-  fold c in G. unfold good in G.
-  repeat (apply andb_true_iff in G; destruct G as [G ?]).
-  repeat split; auto. now apply negb_true_iff.
+  intros h Hg. apply good_elim.
+  exact (small_scope_generic u_env u_alphabet u_init u_reach u_reach_closed h Hg).
 Qed.
 
 (* non-vacuity: a history that builds a 3-tier tree, re-parents h2 from h3 to
@@ -137,4 +168,4 @@ Example small_scope_nonvacuous :
     [EUpd (mkObj 4 3 [MHyper 3]); EUpd (mkObj 3 2 [MHyper 1; MHyper 2]); EUpd (mkObj 1 1 [MNode 1]);
      EUpd (mkObj 2 1 [MNode 2]); EUpd (mkObj 3 2 [MHyper 1]); EUpd (mkObj 4 3 [MHyper 3; MHyper 2]);
      EDel 1; EUpd (mkObj 1 1 [MNode 1; MNode 2])]%positive.
-Proof. vm_compute. repeat split; auto 20. Qed.
+Proof. apply guards_b_sound. vm_compute. reflexivity. Qed.
